@@ -40,3 +40,42 @@ def element(b):
 def network(nl):
     _, Network, Branch = lib()
     return Network([Branch(b[0], b[1], element(b)) for b in nl["branches"]], node_zero_label=nl["ref"])
+
+
+def _num(x):
+    """library number -> JSON-able exact spec ([re, im] floats are exact binary rationals)"""
+    x = complex(x)
+    return [x.real, x.imag]
+
+
+def to_netlist(net):
+    """Read a library Network back into a reference netlist (classification by record
+    class and values, exactly as the library's own predicates see the element)."""
+    from CircuitCalculator.Network import elements as elm
+    out = []
+    for b in net.branches:
+        e = b.element
+        if isinstance(e, elm.NortenElement):
+            z, v = complex(e.Z), complex(e.V)
+            if z == 0 and v == 0:
+                k, p = "short", []
+            elif z == 0:
+                k, p = "V", [_num(v)]
+            elif v == 0:
+                k, p = "Z", [_num(z)]
+            else:
+                k, p = "LV", [_num(v), _num(z)]
+        elif isinstance(e, elm.TheveninElement):
+            y, i = complex(e.Y), complex(e.I)
+            if y == 0 and i == 0:
+                k, p = "open", []
+            elif y == 0:
+                k, p = "I", [_num(i)]
+            elif i == 0:
+                k, p = "Y", [_num(y)]
+            else:
+                k, p = "LI", [_num(i), _num(y)]
+        else:
+            raise TypeError(type(e))
+        out.append([b.node1, b.node2, k, b.id, p])
+    return {"ref": net.node_zero_label, "branches": out}
